@@ -103,7 +103,7 @@ static int runProc(const std::vector<std::string> &argv, const std::string &cwd,
 }
 
 int main(int argc, char **argv) {
-  ctx = parse_args("C13", argc, argv, 400, 3000);
+  ctx = parse_args("C13", argc, argv, 400, 4500);
   Report rep; rep.ctx = ctx;
   // ---- programs and their reference behaviour
   std::vector<Prog> progs;
